@@ -374,3 +374,4 @@ MANIFEST = {
             "algebraically equivalent rewrite of the calibration code passes.",
     "technique": "algebraic normal-form obligations (rational functions) + structural role checks on the AST",
 }
+MANIFEST["text"] += ' The block sum is recognised in function and method form and must not narrow the accumulator dtype.'
